@@ -106,13 +106,14 @@ func c19Keep(tx *cargen.Tx, c *c19Case) bool {
 func TestVerifC19(t *testing.T) {
 	rec := ev.New("C19", "streams")
 	defer rec.Flush()
-	rec.Rule("StreamTransactions / StreamBlocks over a grid of slot ranges (inside an epoch, across the boundary, starting/ending on skipped slots, end absent) x filters (vote, failed in {absent,true,false}; include/exclude/required subsets of <= 2 of a 6-account universe; no filter), with and without the address index; distinct = (rpc, range, filter, index-loaded) tuples with a non-empty expected stream")
+	rec.Rule("StreamTransactions / StreamBlocks over a grid of slot ranges (inside an epoch, across the boundary, starting/ending on skipped slots, end absent) x filters (vote, failed in {absent,true,false}; include/exclude/required subsets of <= 2 of an 8-account universe, two of the accounts occurring in one epoch only; no filter), with and without the address index; distinct = (rpc, range, filter, index-loaded) tuples with a non-empty expected stream")
 	seed := ev.Seed()
 	root := filepath.Join(ev.Scratch(), "c19")
 	os.MkdirAll(root, 0o755)
 	defer os.RemoveAll(root)
 	var universe []solana.PublicKey
-	for i := 0; i < 6; i++ {
+	// accounts 0..5 occur in both epochs; 6 only in the older epoch, 7 only in the newer one
+	for i := 0; i < 8; i++ {
 		var k solana.PublicKey
 		copy(k[:], []byte(fmt.Sprintf("C19-universe-account-%d-padpadpadpad", i)))
 		universe = append(universe, k)
@@ -124,19 +125,29 @@ func TestVerifC19(t *testing.T) {
 		wg.Add(1)
 		go func(i int, e uint64) {
 			defer wg.Done()
-			o := cargen.Opts{Epoch: e, Seed: seed + int64(e), NSlots: 70, SkipOneIn: 4, MaxEntries: 2, MaxTx: 3, MultiFrameOneIn: 7, VoteOneIn: 4, FailOneIn: 3, V0OneIn: 3, Universe: universe, RewardsOneIn: 5, TinyOneIn: 9, FailOtherKindOneIn: 3}
+			o := cargen.Opts{Epoch: e, Seed: seed + int64(e), NSlots: 70, SkipOneIn: 4, MaxEntries: 2, MaxTx: 3, MultiFrameOneIn: 7, VoteOneIn: 4, FailOneIn: 3, V0OneIn: 3, Universe: universe[:6], RewardsOneIn: 5, TinyOneIn: 9, FailOtherKindOneIn: 3}
 			if i == 1 {
 				// a hot account: > 100 matching transactions inside one range
 				o.MaxTx = 5
 				o.KeyHook = func(slot uint64, pos int) []solana.PublicKey {
+					var ks []solana.PublicKey
 					if slot%4 != 3 {
-						return []solana.PublicKey{universe[5]}
+						ks = append(ks, universe[5])
 					}
-					return nil
+					if slot%5 == 0 && pos%2 == 0 {
+						ks = append(ks, universe[7])
+					}
+					return ks
 				}
 			}
 			if i == 0 {
 				o.LastSlot = true // a block at the very end of the first epoch: ranges across the boundary
+				o.KeyHook = func(slot uint64, pos int) []solana.PublicKey {
+					if slot%3 == 0 || slot == (e+1)*cargen.SlotsPerEpoch-1 {
+						return []solana.PublicKey{universe[6]}
+					}
+					return nil
+				}
 			}
 			fx, ierr, err := vfMakeEpoch(filepath.Join(root, fmt.Sprintf("e%d", e)), o, true)
 			if err != nil || ierr != "" {
